@@ -15,7 +15,12 @@ the implementation itself granted (the MAX_STREAM_DATA / MAX_DATA it printed):
 * `idle_deadline_covers_advertised` — the idle deadline lies before (last packet received + the timeout the peer
   may count on);
 * `credit_renewed` — the peer has used up its credit, the application has read everything, a packet leaves, and
-  it carries no higher limit.
+  it carries no higher limit;
+* `stream_limit_never_revoked` — a MAX_STREAMS frame that does not raise what the peer was already told (the
+  advertised initial_max_streams_*, earlier MAX_STREAMS): the enforced limit moved backwards; the peer's next
+  stream within the highest limit it was ever told is then judged by `no_local_error_within_advertised`;
+* `stream_credit_renewed` — the peer has opened every stream it was allowed, all of them are finished by both
+  sides, a packet leaves, and it carries no higher MAX_STREAMS.
 -/
 
 open Uquic.Oracle Uquic.Gen Uquic.Model.UQuic.Limits Uquic.Model.UQuic.LimitsGlue Uquic.Spec.LimitsMon
@@ -38,8 +43,21 @@ structure Ghost where
   read : List (Int × Int) := []
   credit : List (Int × Int) := []
   connCredit : Int := 0
-  /-- a MAX_STREAMS frame was seen: the stream-count monitors stop judging -/
-  sawMaxStreams : Bool := false
+  /-- the highest stream count the peer was told, per kind (advertised, then MAX_STREAMS the client printed) -/
+  toldB : Int := 0
+  toldU : Int := 0
+  /-- the highest stream number the peer opened, per kind -/
+  openedB : Int := 0
+  openedU : Int := 0
+  /-- a FIN was sent: streams may complete, the enforced limit may run ahead of the MAX_STREAMS not yet packed,
+      so "beyond the told count ⇒ refused" is no longer judged -/
+  finSeen : Bool := false
+  fins : List (Int × Int) := []
+  /-- streams whose EOF the application read / whose send side it closed -/
+  eofs : List Int := []
+  closedSend : List Int := []
+  /-- streams the application stopped reading -/
+  stops : List Int := []
   /-- the peer left what it was told: later local errors are its own fault -/
   peerLeft : Bool := false
 
@@ -79,7 +97,8 @@ def parseFrame (w : String) : Option Frame :=
   match w.splitOn ":" with
   | ["ping"] => some .ping
   | ["ncid", a, b] => do some (.ncid (← a.toNat?) (← b.toNat?))
-  | ["strm", a, b, c] => do some (.strm (← a.toInt?) (← b.toInt?) (← c.toInt?))
+  | ["strm", a, b, c] => do some (.strm (← a.toInt?) (← b.toInt?) (← c.toInt?) false)
+  | ["strm", a, b, c, "fin"] => do some (.strm (← a.toInt?) (← b.toInt?) (← c.toInt?) true)
   | ["dgram", a] => do some (.dgram (← a.toInt?))
   | _ => none
 
@@ -106,7 +125,11 @@ def Ghost.streamCredit (gh : Ghost) (sid : Int) : Int :=
   max init ((lookupI gh.credit sid).getD 0)
 
 def Ghost.total (gh : Ghost) : Int := gh.highest.foldl (fun acc e => acc + e.2) 0
-def Ghost.totalRead (gh : Ghost) : Int := gh.read.foldl (fun acc e => acc + e.2) 0
+/-- what the application has consumed: bytes read, and everything of a stream it stopped reading once the final
+    size is known (the unread rest is handed back to the connection window) -/
+def Ghost.totalRead (gh : Ghost) : Int :=
+  gh.highest.foldl (fun acc e =>
+    acc + (if gh.stops.contains e.1 && (lookupI gh.fins e.1).isSome then e.2 else (lookupI gh.read e.1).getD 0)) 0
 
 inductive Judged
   | within (gh : Ghost)
@@ -124,17 +147,27 @@ def Ghost.judge (gh : Ghost) : Frame → Judged
     let r := max gh.rpt rpt
     let active := (issued.filter (· ≥ r)).length
     if (active : Int) ≤ gh.adv.acil then .within { gh with issued := issued, rpt := r } else .outside
-  | .strm sid off len =>
+  | .strm sid off len fin =>
     let kind := sidKind sid
     if kind == .clientUni then .outside else
     if kind == .clientBidi && sidNum sid > gh.opened then .outside else
-    let lim := if kind == .serverBidi then gh.adv.imsb else gh.adv.imsu
+    let lim := if kind == .serverBidi then gh.toldB else gh.toldU
     let cur := (lookupI gh.highest sid).getD 0
     let hi := max cur (off + len)
-    let dataOk := hi ≤ gh.streamCredit sid && gh.total - cur + hi ≤ gh.connCredit
+    -- the final size: nothing beyond it, one value only, not below what was already sent (RFC 9000 4.5)
+    let finOk := match lookupI gh.fins sid with
+      | some f => off + len ≤ f && (!fin || off + len == f)
+      | none => !fin || (off + len ≥ cur && len > 0)
+    let dataOk := hi ≤ gh.streamCredit sid && gh.total - cur + hi ≤ gh.connCredit && finOk
     if kind != .clientBidi && sidNum sid > lim then
-      (if gh.sawMaxStreams then .unknown else if dataOk then .overStreams (sidNum sid) lim else .outside)
-    else if dataOk then .within { gh with highest := setI gh.highest sid hi }
+      (if gh.finSeen then .unknown else if dataOk then .overStreams (sidNum sid) lim else .outside)
+    else if dataOk then
+      let gh := { gh with highest := setI gh.highest sid hi }
+      let gh := if fin then { gh with fins := setI gh.fins sid (off + len), finSeen := true } else gh
+      .within (match kind with
+        | .serverBidi => { gh with openedB := max gh.openedB (sidNum sid) }
+        | .serverUni => { gh with openedU := max gh.openedU (sidNum sid) }
+        | _ => gh)
     else .outside
   | .dgram len =>
     if gh.adv.mdfs > 0 && len + 3 ≤ min gh.adv.mdfs 1200 then .within gh else .unknown
@@ -189,7 +222,8 @@ def packMonitors (gh : Ghost) (impl : String) : Ghost × List Fail := Id.run do
   if !gh.peerLeft then
     for (sid, hi) in gh.highest do
       let cred := gh.streamCredit sid
-      if hi > 0 && hi == cred && (lookupI gh.read sid).getD 0 == hi then
+      -- (a stream whose final size is known needs no further credit, one the application stopped reading gets none)
+      if hi > 0 && hi == cred && (lookupI gh.read sid).getD 0 == hi && (lookupI gh.fins sid).isNone && !gh.stops.contains sid then
         match lookupI msd sid with
         | some v =>
           if v ≤ cred then
@@ -199,10 +233,36 @@ def packMonitors (gh : Ghost) (impl : String) : Ghost × List Fail := Id.run do
     if gh.total > 0 && gh.total == gh.connCredit && gh.totalRead == gh.total && md ≤ gh.connCredit then
       fails := fails ++ [("credit_renewed", "-", s!"connection: the peer used up its credit {gh.connCredit}, everything was read, MAX_DATA {md} does not raise it")]
   let mut gh := gh
+  -- MAX_STREAMS: `b:<n>` / `u:<n>`
+  let msVals : List (Bool × Int) := if ms == "-" then [] else
+    (ms.splitOn ",").filterMap fun p => match p.splitOn ":" with
+      | ["b", n] => n.toInt?.map fun v => (false, v)
+      | ["u", n] => n.toInt?.map fun v => (true, v)
+      | _ => none
+  let maxOf (uni : Bool) : Int := (msVals.filter (·.1 == uni)).foldl (fun acc e => max acc e.2) 0
+  for uni in [false, true] do
+    let told := if uni then gh.toldU else gh.toldB
+    let kind := if uni then "unidirectional" else "bidirectional"
+    -- stream_limit_never_revoked: every MAX_STREAMS raises what the peer was told
+    for (_, v) in msVals.filter (·.1 == uni) do
+      if v ≤ told then
+        fails := fails ++ [("stream_limit_never_revoked", "-",
+          s!"MAX_STREAMS ({kind}) {v} does not raise the {told} the peer was already told (initial_max_streams / earlier MAX_STREAMS): the enforced stream limit moved backwards")]
+    -- stream_credit_renewed: every stream the peer was allowed is open and finished ⇒ a higher limit leaves
+    if !gh.peerLeft then
+      let opened := if uni then gh.openedU else gh.openedB
+      let first : Int := if uni then 3 else 1
+      let allDone := (List.range opened.toNat).all fun i =>
+        let sid := first + 4 * (i : Int)
+        (gh.eofs.contains sid || (gh.stops.contains sid && (lookupI gh.fins sid).isSome)) && (uni || gh.closedSend.contains sid)
+      if opened > 0 && opened == told && allDone && maxOf uni ≤ told then
+        fails := fails ++ [("stream_credit_renewed", "-",
+          s!"the peer opened all {told} {kind} streams it was told, every one is finished and accepted, and no higher MAX_STREAMS leaves ({ms})")]
+    if maxOf uni > told then
+      gh := if uni then { gh with toldU := maxOf uni } else { gh with toldB := maxOf uni }
   for (sid, v) in msd do
     if v > (lookupI gh.credit sid).getD 0 then gh := { gh with credit := setI gh.credit sid v }
   if md > gh.connCredit then gh := { gh with connCredit := md }
-  if ms != "-" then gh := { gh with sawMaxStreams := true }
   return (gh, fails)
 
 /-! ## the step function -/
@@ -213,7 +273,9 @@ def clock (s : St) (t : Int) : St × Int :=
 
 def fmtPack (o : PackOut) : String :=
   let msd := (sortPairs o.maxStreamData).map fun (a, b) => s!"{a}:{b}"
-  s!"md={o.maxData} msd={fmtList msd} ms=- ret={fmtList ((sortNat o.retire).map toString)}"
+  -- (the driver sorts the strings)
+  let ms := ((o.maxStreams.map fun (u, n) => s!"{if u then "u" else "b"}:{n}").toArray.qsort (· < ·)).toList
+  s!"md={o.maxData} msd={fmtList msd} ms={fmtList ms} ret={fmtList ((sortNat o.retire).map toString)}"
 
 def step (s : St) (op impl : String) : St × StepOut :=
   match words op with
@@ -245,7 +307,7 @@ def step (s : St) (op impl : String) : St × StepOut :=
     let gh : Ghost := { alive := impl.startsWith "ok", adv := a,
                         -- (a spec that lists no max_idle_timeout promises nothing: the hypothesis of the theorems)
                         promised := if a.mit > 0 then (promisedIdle a.mit pmit).map (· * 1000) else none,
-                        connCredit := a.imd }
+                        connCredit := a.imd, toldB := a.imsb, toldU := a.imsu }
     let s' := { s with g := some g, dead := false, lastT := 0, gh := gh }
     (s', { model := s!"ok idle={idleMs} pto3={pto3} dl={g.deadline}",
            tags := ["new", if pmit == 0 then "new:peer-no-idle" else if pmit < enf.idle then "new:peer-idle-smaller" else "new:own-idle"],
@@ -294,13 +356,44 @@ def step (s : St) (op impl : String) : St × StepOut :=
           let gh := match intField impl "n" with
             | some k => { s.gh with read := setI s.gh.read sid ((lookupI s.gh.read sid).getD 0 + k) }
             | none => s.gh
+          let gh := if (words impl).contains "eof" && !gh.eofs.contains sid then { gh with eofs := gh.eofs ++ [sid] } else gh
           if s.dead then ({ s with gh := gh }, { model := impl, tags := ["gray"] }) else
           let r := g.read sid n
           match r.2 with
           | none => ({ s with gh := gh }, { model := "nostream", tags := ["rd:nostream"] })
-          | some k => ({ s with g := some r.1, gh := gh },
-                       { model := s!"n={k}", tags := [if r.1.queued.contains sid then "rd:queued-update" else "rd"] })
+          | some (k, eof) =>
+            let completed := r.1.life.ms.length > g.life.ms.length
+            ({ s with g := some r.1, gh := gh },
+             { model := if eof then s!"n={k} eof" else s!"n={k}",
+               tags := [if r.1.queued.contains sid then "rd:queued-update" else "rd"] ++ (if eof then ["rd:eof"] else []) ++
+                       (if completed then ["life:completed-by-read"] else []) })
         | _, _ => (s, { model := "bad-op" })
+      | ["acc", k] =>
+        if k != "b" && k != "u" then (s, { model := "bad-op" }) else
+        if s.dead then (s, { model := impl, tags := ["gray"] }) else
+        let r := g.acceptNext (k == "u")
+        match r.2 with
+        | some sid => ({ s with g := some r.1 }, { model := s!"sid={sid}", tags := ["acc"] })
+        | none => ({ s with g := some r.1 }, { model := "none", tags := ["acc:none"] })
+      | ["stop", sid] =>
+        match sid.toInt? with
+        | none => (s, { model := "bad-op" })
+        | some sid =>
+          let gh := if impl == "ok" && !s.gh.stops.contains sid then { s.gh with stops := s.gh.stops ++ [sid] } else s.gh
+          if s.dead then ({ s with gh := gh }, { model := impl, tags := ["gray"] }) else
+          let r := g.stopRead sid
+          let completed := r.1.life.recvDone.length > g.life.recvDone.length
+          ({ s with g := some r.1, gh := gh },
+           { model := if r.2 then "ok" else "nostream",
+             tags := [if r.2 then "stop" else "stop:nostream"] ++ (if completed then ["life:abandoned-at-stop"] else []) })
+      | ["cls", sid] =>
+        match sid.toInt? with
+        | none => (s, { model := "bad-op" })
+        | some sid =>
+          let gh := if impl == "ok" && !s.gh.closedSend.contains sid then { s.gh with closedSend := s.gh.closedSend ++ [sid] } else s.gh
+          if s.dead then ({ s with gh := gh }, { model := impl, tags := ["gray"] }) else
+          let r := g.closeSend sid
+          ({ s with g := some r.1, gh := gh }, { model := if r.2 then "ok" else "nostream", tags := [if r.2 then "cls" else "cls:nostream"] })
       | ["pack", t] =>
         match t.toInt? with
         | none => (s, { model := "bad-op" })
@@ -315,7 +408,10 @@ def step (s : St) (op impl : String) : St × StepOut :=
             let grew := r.1.streams.any fun e => match g.stream? e.1 with | some o => e.2.size > o.size | none => false
             let tags := ["pack"] ++ (if r.2.maxData > 0 then ["pack:max-data"] else []) ++
               (if !r.2.maxStreamData.isEmpty then ["pack:max-stream-data"] else []) ++
-              (if !r.2.retire.isEmpty then ["pack:retire"] else []) ++ (if grew then ["pack:window-grew"] else [])
+              (if !r.2.retire.isEmpty then ["pack:retire"] else []) ++ (if grew then ["pack:window-grew"] else []) ++
+              (if !r.2.maxStreams.isEmpty then ["pack:max-streams"] else []) ++
+              (if r.1.life.inB.nextAccept < r.1.life.inB.nextOpen || r.1.life.inU.nextAccept < r.1.life.inU.nextOpen
+               then (if !r.2.maxStreams.isEmpty then ["life:max-streams-while-unaccepted"] else ["life:unaccepted"]) else [])
             ({ s1 with g := some r.1 }, { model := fmtPack r.2, tags := tags, fails := fails })
       | _ => (s, { model := "bad-op" })
 
